@@ -109,6 +109,8 @@ def run(scenario, outpath, keep_log=False, after_build=None):
         choices = core.Choices(rng=random.Random(core.h64(f"sched/{scenario.get('sched_seed', 0)}")))
     sim = ProcSim(choices, step_cap=STEP_CAP, keep_log=keep_log,
                   isolate=core.ISOLATE) if np_ > 1 else None
+    if sim is not None and scenario.get("pipe_capacity"):
+        sim.pipe_capacity = int(scenario["pipe_capacity"])
     bug = faults.Buggify(scenario["buggify"]) if scenario.get("buggify") else None
     clk = faults.ClockSim(scenario["clock"]) if scenario.get("clock") else None
     res = {"outcome": None, "exc": None, "msg": None}
